@@ -153,12 +153,34 @@ def run(ctx):
             body = r['text'][r['lo'] - 1:r['hi']]
             if any(s in body[1:-1] for s in ('semi', 'sq', 'dq', 'bt', 'dollar', 'slash', 'dash', 'lf', 'hash')):
                 ctx.nontrivial((r['kind'], tuple(r['text'])))
+    # word contexts: "whatever delimiter or whitespace surrounds it" - also whatever WORDS precede it.  Every region
+    # instance once more behind a phrase of keywords (typed-literal heads, multi-word keywords, random table words).
+    # `at time zone` is left out: the rule table has a dedicated rule that makes AT TIME ZONE '...' one token.
+    PHRASES = ['date ', 'timestamp ', 'time ', 'interval ', 'timestamp with time zone ', 'time without time zone ', 'with time zone ',
+               'zone ', 'like ', 'not like ', 'escape ', 'values ', 'in ', 'is ', 'as ', 'default ', 'comment ', 'collate ', 'order by ',
+               'group by ', 'union all ', 'not null ', 'end if ', 'left outer join ', 'create or replace ', 'WITH TIME ZONE\n', 'Time  Zone ']
+    kwwords = sorted(w for w in extract.all_keyword_words() if w.isalpha())
+    nbase = len(traces)
+    for i in range(nbase):
+        if quick and i % 3:
+            continue
+        ph = rng.choice(PHRASES) if rng.random() < 0.6 else rng.choice(kwwords).lower() + ' '
+        base, reg = meta[i]['text'], traces[i]['region']
+        text = ph + base
+        tr = rec.record(text, len(traces))
+        tr['region'] = {'lo': reg['lo'] + len(ph), 'hi': reg['hi'] + len(ph), 'ty': reg['ty']}
+        for e in tr['ev']:
+            e.pop('ty', None)
+        traces.append(tr)
+        meta.append({'kind': meta[i]['kind'], 'text': text, 'symbols': ['<' + ph + '>'] + meta[i]['symbols']})
+        ctx.evals()
+    ctx.cov['word_context_instances'] = len(traces) - nbase
     # long bodies: "whatever the body contains" includes how much - one instance of every region kind is pumped right
     # behind its opener with a neutral filler (no delimiter of any kind in it, but semicolons) past powers of two
     OPENER = {'str': 1, 'dqname': 1, 'btname': 1, 'cmtm': 2, 'cmt1': 2, 'dollar': 2, 'dollartag': 3, 'cmt1cr': 2, 'cmt1hash': 2,
               'hint1': 3, 'hint1cr': 3, 'hintm': 3}
     done = set()
-    for i in range(len(meta)):
+    for i in range(nbase):
         k = meta[i]['kind']
         if k in done or k not in OPENER:
             continue
